@@ -139,6 +139,20 @@ func init() {
 		"vSymbolic": func(fr *frame, a []value) value { return true },
 		// vOverride(name, fn): calls to the function whose SSA name is name
 		// are redirected to fn for the rest of the path (a harness-level stub).
+		// vWrap(name, fn): like vOverride, but a call made directly by fn
+		// itself reaches the original function (a monitor around it).
+		"vWrap": func(fr *frame, a []value) value {
+			if fr.i.overrides == nil {
+				fr.i.overrides = map[string]value{}
+			}
+			if fr.i.wraps == nil {
+				fr.i.wraps = map[string]bool{}
+			}
+			fr.i.overrides[a[0].(string)] = a[1].(iface).v
+			fr.i.wraps[a[0].(string)] = true
+			fr.i.modelsHit["harness monitor around "+a[0].(string)] = true
+			return nil
+		},
 		"vOverride": func(fr *frame, a []value) value {
 			if fr.i.overrides == nil {
 				fr.i.overrides = map[string]value{}
